@@ -320,6 +320,10 @@ impl Buffer {
             // the images are drawn on top of the characters, they belong to the flat picture as well
             // (copied after the characters: set_char removes an image it writes into)
             for layer in &self.layers {
+                // a hidden layer shows nothing, neither its characters (see get_char) nor its images
+                if !layer.properties.is_visible {
+                    continue;
+                }
                 for sixel in &layer.sixels {
                     let mut sixel = sixel.clone();
                     sixel.position += layer.get_offset();
@@ -848,6 +852,10 @@ impl Buffer {
         }
 
         for layer in &self.layers {
+            // a hidden layer shows nothing, neither its characters (see get_char) nor its images
+            if !layer.properties.is_visible {
+                continue;
+            }
             for sixel in &layer.sixels {
                 let sx = layer.get_offset().x + sixel.position.x - rect.start.x;
                 let sx_px = sx * font_size.width;
